@@ -1,6 +1,8 @@
 (* C17 - runtime property: statements over the transition-system models (Mux/Pipe.v, Mux/Accept.v); see also the sibling files. *)
 From Coq Require Import List NArith ZArith Bool Arith.
 From SA Require Import Base.Tok Gen.Shapes Mux.Lts Mux.Pipe Mux.Accept Mux.Runtime Mux.Runtime_proofs.
+From SA Require Gen.Shapes2.
+From Coq Require Import String.
 Import ListNotations.
 Local Open Scope nat_scope.
 
@@ -19,3 +21,12 @@ Proof. exact pipe_quiescent_caps. Qed.
 
 Example c17_nonvacuous : ph (crun [ERead 5; EWriteOk; ERead 3; EWriteOk; EEof]) = LReportEof /\ wr (crun [ERead 5; EWriteOk; ERead 3; EWriteOk; EEof]) = 8.
 Proof. split; reflexivity. Qed.
+
+(* What the close-propagation model takes from the source: the end of one direction closes the other side, in both branches; the
+   handshake deadline is cleared in both directions on both ends. *)
+Theorem c17_close_glue_facts :
+  Gen.Shapes2.pipe_on_down_report_closes = "up"%string /\ Gen.Shapes2.pipe_on_up_report_closes = "down"%string /\
+  Gen.Shapes2.server_handshake_deadline_cleared = "SetDeadline(time.Time{})"%string /\
+  Gen.Shapes2.client_handshake_deadline_cleared = "SetDeadline(time.Time{})"%string.
+Proof. repeat split; reflexivity. Qed.
+Print Assumptions c17_close_glue_facts.
